@@ -170,6 +170,9 @@ class LogicBlock(SystemWideDevice, ModeDevice):
         """Post an event to notify about changes."""
         del kwargs
         value = self._state.value
+        if isinstance(value, list):
+            # post a snapshot: the event is handled later and the accrual keeps mutating its list
+            value = list(value)
         enabled = self._state.enabled
         self.machine.events.post("logicblock_{}_updated".format(self.name), value=value, enabled=enabled)
         '''event: logicblock_(name)_updated
